@@ -11,7 +11,7 @@ class Check(PropertyCheck):
     props_module = "Properties.Properties_C05"
     extra_targets = ["Extract/ExtractDec.vo"]
     gen_files = declib.DEC_GEN + ["ParseTab.v"]
-    extra_props = ["Properties.Properties_C15parse"]
+    extra_props = ["Properties.Properties_C15parse", "Properties.Properties_C09retr"]
     trusted_base = declib.PARSE_TRUSTED + declib.DEC_TRUSTED
     assumptions = ["files are byte strings; the process-level glue (work(), scheduler) is covered by C07/C09/C10"]
 
